@@ -72,7 +72,7 @@ func sortQueuesByPriorityAndFairness(queues []*Queue, fairMaxResources []*resour
 			r.GetAllocatedResource(), r.GetGuaranteedResource(), fairMax[r])
 
 		if comp == 0 {
-			return resources.StrictlyGreaterThan(resources.Sub(l.GetPendingResource(), r.GetPendingResource()), resources.Zero)
+			return pendingGreaterThan(l.GetPendingResource(), r.GetPendingResource())
 		}
 		return comp < 0
 	})
@@ -96,10 +96,35 @@ func sortQueuesByFairnessAndPriority(queues []*Queue, fairMaxResources []*resour
 			if lPriority < rPriority {
 				return false
 			}
-			return resources.StrictlyGreaterThan(resources.Sub(l.GetPendingResource(), r.GetPendingResource()), resources.Zero)
+			return pendingGreaterThan(l.GetPendingResource(), r.GetPendingResource())
 		}
 		return comp < 0
 	})
+}
+
+// pendingGreaterThan is the last sort key of the queues: the queue with more pending resources goes first.
+// One side being larger for all resource types is a partial order only: using it directly as the sort key makes the
+// result depend on the order of the input, which comes from a map. If neither side is larger for all types the first
+// resource type, in name order, for which the quantities differ decides. That extends the partial order to a total one.
+func pendingGreaterThan(l, r *resources.Resource) bool {
+	delta := resources.Sub(l, r)
+	if resources.StrictlyGreaterThan(delta, resources.Zero) {
+		return true
+	}
+	if resources.StrictlyGreaterThan(resources.Zero, delta) {
+		return false
+	}
+	names := make([]string, 0, len(delta.Resources))
+	for name := range delta.Resources {
+		names = append(names, name)
+	}
+	sort.Strings(names)
+	for _, name := range names {
+		if delta.Resources[name] != 0 {
+			return delta.Resources[name] > 0
+		}
+	}
+	return false
 }
 
 // fairMaxByQueue links each queue to its fair max resource, as passed in by position.
